@@ -284,7 +284,7 @@ def gen(rng, tier):
     for rw, rmp, lw, lmp in cfgs:
         for n in range(1, depth + 1):
             for word in itertools.product(alpha, repeat=n):
-                if n == depth and rng.random() > (0.5 if quick else 0.35):
+                if n == depth and rng.random() > (0.5 if quick else 0.15):
                     continue
                 b = _Bytes()
                 ops = []
@@ -309,7 +309,7 @@ def gen(rng, tier):
         "recv": [1, 1, 0.5, 1, 6, 4, 0.5],
         "all": [3, 3, 1, 3, 3, 2, 1],
     }
-    nrand = 1500 if quick else 60000
+    nrand = 1500 if quick else 40000
     for i in range(nrand):
         mix = list(mixes)[i % len(mixes)]
         small = rng.random() < 0.7
@@ -428,7 +428,7 @@ SPEC = Spec(
     to_coq=to_coq,
     nontrivial=lambda c, o: any(t in o.split(" |")[0] for t in ("D", "X", "C", "A")),
     histogram=histogram,
-    rule="every history up to depth 3 (quick; deepest level sampled 50%) / 4 (thorough, 35%) over an 11-letter alphabet "
+    rule="every history up to depth 3 (quick; deepest level sampled 50%) / 4 (thorough, 15%) over an 11-letter alphabet "
          "{write 1/3 bytes, writeExtended type 1/2, loseConnection, WINDOW_ADJUST 1/4, CHANNEL_DATA 1/2, EXTENDED_DATA, "
          "CLOSE} for 4 (thorough 36) tiny window/packet configurations; random histories of 2-13 (thorough 2-29) ops in four "
          "op mixes with remote window 0-200, max packets 1-64, local window 1-100, half ending with a draining "
